@@ -171,8 +171,11 @@ def _owner(ctx):
             if not creates:
                 continue
             n += 1
-            arg = N.txt(sub.args[0]) if sub.args else ''
-            ok = arg == 'ready_file' and func.name == '_cache_notify'
+            # the marker by what it is: <cache dir>/.ready, whatever the
+            # local holding the path is called
+            arg = K.rtxt(func, sub.args[0]) if sub.args else ''
+            ok = 'cache_dir' in arg and 'READY' in arg.upper() and \
+                func.name == '_cache_notify'
             ctx.ob('C12.2', func, sub, ok,
                    'the only file eventmgr creates without fs.write_safe is '
                    'the .ready marker' if ok else
@@ -450,13 +453,24 @@ def _content(ctx, em):
         ctx.ob('C12.5', cache, node, ok,
                'the task id is set before the manifest is written',
                construct='task set before write')
+        # the placement record: first component of the first
+        # get_with_metadata(...) result
+        pdata = 'placement_data'
+        for sub in K.walk_no_nested(cache.node):
+            if isinstance(sub, ast.Assign) and \
+                    isinstance(sub.targets[0], ast.Tuple) and \
+                    len(sub.targets[0].elts) == 2 and \
+                    isinstance(sub.value, ast.Call) and \
+                    K.callee_text(sub.value).endswith('get_with_metadata'):
+                pdata = N.txt(sub.targets[0].elts[0])
+                break
         upd = [n for n, c in K.nodes_calling(
             graph, lambda c: K.is_meth(c, 'update') and
             K.recv_text(c) in names and c.args and
-            N.txt(c.args[0]) == 'placement_data')]
+            N.txt(c.args[0]) == pdata)]
         ok = bool(upd) and K.guarded_by(
             graph, node, lambda e: e.src in upd or any(
-                a.key[0] == 'is' and a.key[1] == 'placement_data' and
+                a.key[0] == 'is' and a.key[1] == pdata and
                 a.key[2] == 'None' and a.key[3]
                 for a in nz.facts_of_edge(e)))
         ctx.ob('C12.5', cache, node, ok,
@@ -464,8 +478,7 @@ def _content(ctx, em):
                'manifest is written', construct='placement merged before '
                                                 'write')
         ctx.ob('C12.5', cache, node,
-               N.txt(call.args[0]) == 'manifest_file' and
-               defs.get('manifest_file') ==
+               K.rtxt(cache, call.args[0]) ==
                'os.path.join(self.tm_env.cache_dir, %s)' % app,
                'written to <cache>/<instance>', construct='cache path')
     # the only way to leave without writing although the placement exists:
@@ -544,7 +557,11 @@ def _content(ctx, em):
            'written unless the existing file is up to date',
            path=K.describe(skip) if skip else None,
            construct='cache file written on every path')
-    pn = defs.get('placement_node', '')
+    # the node the placement data is read from (first get_with_metadata)
+    reads = [c for c in K.calls(cache.node)
+             if K.callee_text(c).endswith('get_with_metadata') and
+             len(c.args) >= 2]
+    pn = K.rtxt(cache, reads[0].args[1]) if reads else ''
     ctx.ob('C12.5', cache, None,
            pn == 'z.path.placement(self._hostname, %s)' % app,
            "placement data is read from this host's placement node: %s" %
